@@ -383,6 +383,22 @@ def argument_variants(col, scratch, kind, st):
             d = diff_sig(frame_sig(dfh[proj]), frame_sig(got))
             if d:
                 col.violation("args.hilbert_distance_column", dict(case, variant="columns=%s" % proj), f"columns={proj}: {d}")
+        # a Dask frame whose ACTIVE geometry column was projected away / dropped / renamed before it is written
+        col.count("evaluations", 3)
+        df2 = GeoDataFrame({"g": make_variant(kind, st, "plain", n), "v": np.arange(n), "g2": make_variant(kind, st, "plain", n)[::-1]},
+                           index=make_index("named", n), geometry="g")
+        d2 = dd.from_pandas(df2, npartitions=3)
+        for tag, lazy, want in (("projected", d2[["g2", "v"]], df2[["g2", "v"]]), ("dropped", d2.drop(columns=["g"]), df2.drop(columns=["g"])),
+                                ("renamed", d2.rename(columns={"g": "h"}), df2.rename(columns={"g": "h"}))):
+            pp = os.path.join(base, f"act-{tag}.parq")
+            try:
+                lazy.to_parquet(pp)
+                got = read_parquet_dask(pp).compute(scheduler="synchronous")
+                d = diff_sig(frame_sig(want), frame_sig(got))
+                if d:
+                    col.violation("args.active_column_gone", dict(case, variant=tag), f"{tag}: {d}")
+            except Exception as ex:
+                col.violation("args.active_column_gone.raises", dict(case, variant=tag), f"{tag}: {type(ex).__name__}: {str(ex)[:200]}")
         col.count("evaluations")
         rb = read_parquet_dask(p2, build_sindex=True)
         d = diff_sig(frame_sig(ddf.compute(scheduler="synchronous")), frame_sig(rb.compute(scheduler="synchronous")))
